@@ -748,7 +748,9 @@ func closeRing(c []geom.Point, k int) *node {
 	return &node{kind: kRing, pts: append(r, r[0])}
 }
 
-func (g *gctx) pinchedCases(out *bufio.Writer) {
+// call = index of this call within the run: every call covers a third of the start-vertex pairs
+// (i,j), rotating, so that ALL pairs are covered every three calls (~100 times per quick run)
+func (g *gctx) pinchedCases(out *bufio.Writer, call int) {
 	v := g.lattice(6)
 	P := v[0]
 	P2 := P
@@ -782,9 +784,13 @@ func (g *gctx) pinchedCases(out *bufio.Writer) {
 	other, other2 := g.ring(), g.ring()
 	for i := range cyc {
 		for j := range cyc {
+			sel := i*len(cyc) + j + call
+			if sel%3 != 0 {
+				continue
+			}
 			a, b := closeRing(cyc, i), closeRing(pert, j)
 			emit(out, "pinch:T", g.tol, (&node{kind: kPG, kids: []*node{a}}).geom(), (&node{kind: kPG, kids: []*node{b}}).geom())
-			if (i+j)%3 == 0 { // as a hole next to other rings, and inside a multi-polygon / collection
+			if sel%9 == 0 { // as a hole next to other rings, and inside a multi-polygon / collection
 				pa := &node{kind: kPG, kids: []*node{other.clone(), a}}
 				pb := &node{kind: kPG, kids: []*node{b, other.clone()}}
 				emit(out, "pinch:T", g.tol, pa.geom(), pb.geom())
@@ -792,7 +798,7 @@ func (g *gctx) pinchedCases(out *bufio.Writer) {
 				emit(out, "pinch:T", g.tol, (&node{kind: kMPG, kids: []*node{q, pa}}).geom(), (&node{kind: kMPG, kids: []*node{pb, q.clone()}}).geom())
 				emit(out, "pinch:T", g.tol, (&node{kind: kGC, kids: []*node{pa, q}}).geom(), (&node{kind: kGC, kids: []*node{q.clone(), pb}}).geom())
 			}
-			if (i+2*j)%5 == 0 {
+			if (sel/3)%2 == 0 {
 				c := closeRing(disp, j)
 				emit(out, "pinchd:F", g.tol, (&node{kind: kPG, kids: []*node{a}}).geom(), (&node{kind: kPG, kids: []*node{c}}).geom())
 			}
@@ -1264,7 +1270,7 @@ func gen(seed uint64, tier string) {
 			emit(out, "edge:?", g.tol, geom.MultiLineString{tiny(), tiny()}, geom.MultiLineString{tiny(), tiny()})
 		}
 		if it%8 == 4 {
-			g.pinchedCases(out)
+			g.pinchedCases(out, it/8)
 		}
 		if (tier != "thorough" && it%625 == 7 || it%2500 == 7) && g.dyadic {
 			concEvery, concCount = 13, 0 // large member / vertex counts: calls long enough to overlap
@@ -1319,9 +1325,9 @@ func impl() {
 			a0, b0 := clone(a), clone(b)
 			r1, r2, lay = evalAll(a, b, tol)
 			if strings.HasPrefix(tag, "conc-") && lay == "" && len(r1) == 1 && len(r2) == 1 {
-				rounds := 400
+				rounds := 200
 				if len(line) > 4000 {
-					rounds = 48
+					rounds = 32
 				}
 				r1, r2 = evalConc(a0, b0, tol, r1, r2, rounds)
 			}
